@@ -62,6 +62,10 @@ type Prog struct {
 	Close bool
 	// Deadline: the handler first calls SetCloseDeadline with a time in the "future" or the "past"
 	Deadline string
+	// DlSeq: after that, one SetCloseDeadline call per digit, in order: 1 = a time in the future
+	// (each later than the one before), 2 = a time in the past, 3 = a time in the near future,
+	// then the handler waits until it has passed
+	DlSeq string
 	// Mut: the handler first edits the *xml.StartElement it was handed in place (handlers are
 	// given a pointer into the serve loop's own variable): 1 = every unqualified type attribute
 	// becomes "result", 2 = the name loses its namespace, 3 = every unqualified id attribute
@@ -108,6 +112,9 @@ func (p Prog) Enc() string {
 		f = append(f, "df")
 	case "past":
 		f = append(f, "dp")
+	}
+	if p.DlSeq != "" {
+		f = append(f, "ds"+p.DlSeq)
 	}
 	if p.Mut != 0 {
 		f = append(f, fmt.Sprintf("m%d", p.Mut))
@@ -227,6 +234,46 @@ func writeVia(t xmlstream.TokenReadEncoder, o Op) error {
 
 // ErrHandler is what a program with Ret "fail" returns.
 var ErrHandler = errors.New("verif: handler failed")
+
+// Dls is the sequence of SetCloseDeadline calls of the program, one digit per call.
+func (p Prog) Dls() string {
+	switch p.Deadline {
+	case "future":
+		return "1" + p.DlSeq
+	case "past":
+		return "2" + p.DlSeq
+	}
+	return p.DlSeq
+}
+
+// ExpiredAfter is the property's view of a sequence of SetCloseDeadline calls: every call sets
+// THE deadline, so the last one decides whether the input context has ended.
+func ExpiredAfter(dls string, e bool) bool {
+	for _, d := range dls {
+		switch d {
+		case '1':
+			e = false
+		case '2', '3':
+			e = true
+		}
+	}
+	return e
+}
+
+// setDeadlines makes the calls of a digit sequence on the session.
+func setDeadlines(s *xmpp.Session, dls string) {
+	for i, d := range dls {
+		switch d {
+		case '1':
+			_ = s.SetCloseDeadline(time.Now().Add(time.Duration(i+1) * time.Hour))
+		case '2':
+			_ = s.SetCloseDeadline(time.Unix(1, 0))
+		case '3':
+			_ = s.SetCloseDeadline(time.Now().Add(10 * time.Millisecond))
+			time.Sleep(25 * time.Millisecond)
+		}
+	}
+}
 
 // Invocation records what one handler call saw.
 type Invocation struct {
@@ -382,6 +429,9 @@ type Opts struct {
 	FailAfter int
 	// FailOnce: only that one Write call is refused, later ones are accepted again
 	FailOnce bool
+	// PreDl: SetCloseDeadline calls the application makes before Serve starts, one digit per
+	// call (see Prog.DlSeq)
+	PreDl string
 }
 
 // Enc renders the options for the replay lines ("-" = defaults).
@@ -395,6 +445,9 @@ func (o Opts) Enc() string {
 	}
 	if o.FailOnce {
 		f = append(f, "failonce")
+	}
+	if o.PreDl != "" {
+		f = append(f, "predl="+o.PreDl)
 	}
 	return common.Join(f, ",")
 }
@@ -417,6 +470,8 @@ func DecOpts(s string) Opts {
 			}
 		case p[0] == "failonce":
 			o.FailOnce = true
+		case p[0] == "predl" && len(p) == 2:
+			o.PreDl = p[1]
 		case p[0] == "failafter" && len(p) == 2:
 			fmt.Sscanf(p[1], "%d", &o.FailAfter)
 		}
@@ -480,6 +535,7 @@ func ServeOpt(opt Opts, ns string, local, remote jid.JID, body []byte, progs []P
 		case "past":
 			_ = s.SetCloseDeadline(time.Unix(1, 0))
 		}
+		setDeadlines(s, p.DlSeq)
 		if p.Mut != 0 {
 			mutate(start, p.Mut)
 		}
@@ -493,6 +549,7 @@ func ServeOpt(opt Opts, ns string, local, remote jid.JID, body []byte, progs []P
 	if before != nil {
 		after = before(s, out)
 	}
+	setDeadlines(s, opt.PreDl)
 	skip := out.Len()
 	if opt.FailAfter >= 0 {
 		fw.mu.Lock()
